@@ -96,7 +96,7 @@ def place_instructions(e, c: RiscvCtx, items):
     st = c.sim.state
     im = st.instruction_memory
     im = getattr(im, "instruction_memory", im)
-    if e.mode == "sym" and any(type(a) is not builtins.int for a, _ in items):
+    if e.mode == "sym":
         im.instructions = SymKeyDict(items)
         im.address_range = SymRange(im.address_range.start, im.address_range.stop)
     else:
